@@ -73,6 +73,10 @@ const BASE: u64 = 0x1000;
 const REG_A: usize = 8;
 const REG_B: usize = 6;
 const CELLS: usize = REG_A + REG_B; // slice and region targets are CELLS bytes long too
+/// the guest-memory target has a third region behind a hole of HOLE bytes: no transfer that
+/// starts in the first two regions may reach it, but a range may *end* in it
+const HOLE: usize = 2;
+const REG_D: usize = 6;
 
 fn label(i: usize) -> u8 {
     0x10 + i as u8
@@ -288,6 +292,7 @@ impl Target {
                 let m = GuestMemoryMmap::<()>::from_ranges(&[
                     (GuestAddress(BASE), REG_A),
                     (GuestAddress(BASE + REG_A as u64), REG_B),
+                    (GuestAddress(BASE + (CELLS + HOLE) as u64), REG_D),
                 ])
                 .unwrap();
                 t.memory = Some(m);
@@ -298,9 +303,9 @@ impl Target {
     }
 
     fn set_labels(&mut self) {
-        let data: Vec<u8> = (0..CELLS).map(label).collect();
+        let data: Vec<u8> = (0..CELLS + REG_D).map(label).collect();
         match self.kind {
-            TargetKind::Slice => self.buf.copy_from_slice(&data),
+            TargetKind::Slice => self.buf.copy_from_slice(&data[..CELLS]),
             TargetKind::Region => unsafe {
                 std::ptr::copy_nonoverlapping(data.as_ptr(), self.region.as_ref().unwrap().as_ptr(), CELLS)
             },
@@ -444,7 +449,7 @@ impl Case {
     fn to_json(&self) -> Value {
         json!({"target": format!("{:?}", self.target), "stream": format!("{:?}", self.stream), "form": self.form.name(),
                "form_id": format!("{:?}", self.form), "offset": self.off, "count": self.count,
-               "layout": match self.target { TargetKind::Memory => format!("regions [0x1000,+{}) [0x{:x},+{}) then a hole", REG_A, BASE as usize + REG_A, REG_B), _ => format!("{} bytes", CELLS) }})
+               "layout": match self.target { TargetKind::Memory => format!("regions [0x1000,+{}) [0x{:x},+{}), a hole of {} bytes, [0x{:x},+{})", REG_A, BASE as usize + REG_A, REG_B, HOLE, BASE as usize + CELLS + HOLE, REG_D), _ => format!("{} bytes", CELLS) }})
     }
     fn from_json(v: &Value) -> Option<Case> {
         let target = match v.get("target")?.as_str()? {
@@ -717,7 +722,7 @@ fn cases(tier: Tier) -> Vec<Case> {
 
 pub fn run(tier: Tier, replay: Option<String>) -> i32 {
     let ctx = crate::new_ctx("C14", tier, "fault_enumeration", &replay);
-    ctx.set_rule("choice-tree DFS: every call the transfer makes to the underlying stream is a choice among full / short by k / zero / EINTR (<=3 in a row) / hard error of four kinds (other, WouldBlock, BrokenPipe, TimedOut); scripts of up to max_calls scripted calls, at most `bound` non-default answers per script (all bounds 0..=B enumerated completely); streams: a scripted ReadVolatile/WriteVolatile and the real File adapter over interposed read(2)/write(2); targets: slice, region, guest memory spanning two regions and a hole; a case is non-trivial when its script contains at least one non-default answer; distinct = distinct (case, script) pairs, by construction of the DFS");
+    ctx.set_rule("choice-tree DFS: every call the transfer makes to the underlying stream is a choice among full / short by k / zero / EINTR (<=3 in a row) / hard error of four kinds (other, WouldBlock, BrokenPipe, TimedOut); scripts of up to max_calls scripted calls, at most `bound` non-default answers per script (all bounds 0..=B enumerated completely); streams: a scripted ReadVolatile/WriteVolatile and the real File adapter over interposed read(2)/write(2); targets: slice, region, guest memory with two adjacent regions, a hole and a third region behind it (ranges may end in the hole or behind it); a case is non-trivial when its script contains at least one non-default answer; distinct = distinct (case, script) pairs, by construction of the DFS");
     ctx.assume("the scripted stream and the interposed syscalls deliver exactly what the script says");
     if let Err(e) = crate::interpose::selftest() {
         ctx.machinery(&format!("interposition self-test failed: {}", e));
